@@ -297,6 +297,58 @@ def run(facts, res):
                                       "flatten names an array descriptor by concatenating %d arbitrary user strings (owner identifier, field key) with a constant "
                                       "separator: ('a@b','c♭') and ('a','b@c♭') give the same descriptor identifier, the two arrays share one descriptor" % len(parts), cb.loc(t.line))
         res.floor("U4", "array descriptor identifier sites in flatten", n_desc, 1)
+        # U4c: generated identifiers name a *position*: the path handed down when flatten descends into the value of a field
+        # extends the object's path by the object's identifier and by the field key (otherwise anonymous objects under
+        # different fields of one parent get the same generated identifier and overwrite each other)
+        if flb is not None:
+            from ..flows import flow_of
+            from ..conds import capture_term
+            n_rec = 0
+            for cb in members_of(facts, flb):
+                if cb.kind != "closure" or cb.argc < 2 or not cb.local_ty(2).startswith("("):
+                    continue            # the per-field closure receives (key, value) pairs
+                fl_ = flow_of(cb)
+                key_locals = set()
+                for blk in cb.blocks:
+                    for st in blk.stmts:
+                        if st.kind == "assign" and not st.place.proj:
+                            pl = st.rv.place() if st.rv.kind in ("ref", "rawptr") else (st.rv.operands()[0].place if st.rv.kind == "use" and st.rv.operands() else None)
+                            if pl is not None and pl.local == 2 and any(p_["k"] == "field" and p_["i"] == 0 for p_ in pl.proj):
+                                key_locals.add(st.place.local)
+                for bi, t in cb.calls():
+                    if t.callee is None or t.callee.target() != flb.path or len(t.args) < 3:
+                        continue
+                    n_rec += 1
+                    src = fl_.operand_sources(t.args[2])
+                    has_key = any(n_[0] == "l" and n_[1] in key_locals for n_ in src)
+                    # the captured path: in the parent it derives from the identifier just generated and the incoming path
+                    has_id = has_in = False
+                    for n_ in src:
+                        if n_[0] == "pfield" and n_[1] == 1:
+                            for i_ in ([int(n_[2])] if str(n_[2]).isdigit() else []):
+                                if True:
+                                    ct = capture_term(cb, i_, facts)
+                                    pb_ = facts.body(cb.direct_parent or cb.parent)
+                                    if ct is None or pb_ is None:
+                                        continue
+                                    x_ = ct
+                                    while x_[0] in ("ref", "deref", "cast"):
+                                        x_ = x_[1]
+                                    if x_[0] == "var":
+                                        ps = flow_of(pb_).local_sources(x_[1])
+                                        gen = {bb for bb in flow_of(pb_).call_blocks(ps) if pb_.blocks[bb].term.callee is not None and
+                                               pb_.blocks[bb].term.callee.name == "generate_identifier"}
+                                        has_id = has_id or bool(gen)
+                                        has_in = has_in or ("l", 3) in ps
+                    ok_ = has_key and has_id and has_in
+                    res.instance("U4", "flatten: the path handed to the recursion for a field value extends the incoming path (%s) by the object's identifier (%s) and the field key (%s)" % (
+                        has_in, has_id, has_key), cb.loc(t.line))
+                    if not ok_:
+                        res.violation("U4", "flatten|field-path-not-extended:%s" % ("key" if not has_key else "identifier" if not has_id else "path"),
+                                      "flatten descends into the value of a field with a path that does not contain %s: generated identifiers are hashes of the path, so "
+                                      "anonymous objects at different positions (e.g. under two flattened fields of one parent) get the same identifier and one "
+                                      "overwrites the other" % ("the field key" if not has_key else "the owner's identifier" if not has_id else "the incoming path"), cb.loc(t.line))
+            res.floor("U4", "recursive descents of flatten into field values", n_rec, 1)
 
     pre = facts.const_str("constants::STRING_ESCAPE_PREFIX")
     e1 = consts_of("utils::escape", {"to_string", "add"})
